@@ -126,6 +126,16 @@ Section Law.
     ++ chk 8 (forallb (removed_selected before) (o_events ob))
     ++ chk 9 (opt_eqb Z.eqb (o_ret ob) exp_ret).
 
+  (* the built-in list driven through a whole history on the validated items (a failing operation
+     leaves it alone): the contents after each step *)
+  Fixpoint pylist_run (l : list Z) (ops : list op) : list (list Z) :=
+    match ops with
+    | [] => []
+    | o :: r =>
+        let l' := match fst (builtin l o) with Ok (l', _) => l' | Raise _ => l end in
+        l' :: pylist_run l' r
+    end.
+
   Fixpoint law_hist (i : Z) (before : list Z) (h : list (op * obs)) : list Z :=
     match h with
     | [] => []
